@@ -970,7 +970,9 @@ type snProfile struct {
 
 var snStrings = []string{"a", "hello world", "it's", `say "hi"`, `back\slash`, `both ' and "`, "x_y-z.w+v", "ünï", "\x01\xff", "{[,:;]}", " lead", "trail ", "A1", "b2b", "line\nbreak", "tab\there", strings.Repeat("long ", 30), "e", "B", "I;", "L",
 	// multi-byte characters whose code point, cut to its low byte, is a letter, digit or sign ('-', 'A', '0' ...)
-	"中", "Ł", "a中", "\U0001F630", "Ł中-\U0001F630"}
+	"中", "Ł", "a中", "\U0001F630", "Ł中-\U0001F630",
+	// bytes next to the unquoted set in ASCII: they need quotes
+	"a/b", "/", "p/q", "a*b", "a@b", "a=b", "x~y", "a^b"}
 
 // ("true"/"false" are not here: printed bare they are grey in the listed grammar)
 var snOddStrings = []string{"", "123", "-1", "1.5", "1b", "0x10", "1e5", "-", "12L", ".5", "+1", "1f", "0"}
@@ -1259,6 +1261,8 @@ var snParseProbes = []string{
 	"[a,[1", "[a,[]", "[a,{}]", // literal, then container
 	"[LL;]", "[Ixyz;1]", // array prefix with extra characters
 	"[[B;],[I;1]]", "[[L;1l],[I;2]]", "{a:[[],[B;1b]]}", // list of arrays / lists of different kinds
+	"a/b", "{k:a/b}", "{a/b:1}", "[1/2]", "{k:1./}", "/", "a*b", "a@b", "{k:a=b}", "a~b", // bytes next to the unquoted set in ASCII ('/' between '.' and '0', ':' .. '@' behind '9', '[' .. '`' around '_')
+	"'it\\'s'", "['a\\\\', \"b\"]", "{k:'\\'\"', \"l\":1b}", "['\\\\\"]", // escapes inside single-quoted strings, then a double-quoted one
 }
 
 var snBoundaryLits = []string{
